@@ -18,6 +18,7 @@ func init() {
 				{Harness: "c05.bytes256", Mode: "plain", Shards: 16},
 				{Harness: "c05.strings", Mode: "plain", Shards: 8},
 				{Harness: "c05.numbers", Mode: "plain", Shards: 8},
+				{Harness: "c05.ctrl", Mode: "plain", Shards: 8},
 			}
 		},
 	})
